@@ -540,6 +540,12 @@ pub fn decode(data: &[u8], filter: &StreamFilter) -> Result<Vec<u8>> {
 }
 
 pub fn encode(data: &[u8], filter: &StreamFilter) -> Result<Vec<u8>> {
+    // the decoders undo the predictor their parameters name: data encoded without it would not come back
+    if let StreamFilter::LZWDecode(ref params) | StreamFilter::FlateDecode(ref params) = *filter {
+        if params.predictor == 2 || params.predictor >= 10 {
+            bail!("encoding with predictor {} is not supported", params.predictor);
+        }
+    }
     match *filter {
         StreamFilter::ASCIIHexDecode => Ok(encode_hex(data)),
         StreamFilter::ASCII85Decode => Ok(encode_85(data)),
